@@ -13,7 +13,7 @@ SCHED_TB = ('trusted base: the scheduler pair engine (mp.Queue/Event/Process, ti
             'in-memory transport, get_version shim')
 CHECKS['C01'] = (
     'property-based testing (Hypothesis, seeded): model-based histories through the real scheduler loop under a '
-    'deterministic cooperative scheduler, holder-set disjointness oracle at every grant; NodeList API vs occupancy model (also obtained through a real Pilot, with index gaps, NUMA domains, and from 2-3 concurrent application threads under the deterministic scheduler)',
+    'deterministic cooperative scheduler, holder-set disjointness oracle at every grant; NodeList API vs occupancy model (also obtained through a real Pilot, with index gaps, NUMA domains, and from 2-3 concurrent application threads under the deterministic scheduler); real resource-manager start-up with node-target sub-agents / service nodes: reserved nodes never in the node list handed on',
     'random search over node layouts x task streams x interleavings of arrivals/completions/cancels with the real '
     'Continuous/ContinuousJsrun code; no counterexample in the explored domain, coverage measured; not a proof',
     SCHED_TB, 'DESIGN.md 4/C01')
@@ -39,7 +39,7 @@ CHECKS['C04'] = (
     'named env), reference fit deliberately conservative', 'DESIGN.md 4/C04')
 CHECKS['C16'] = (
     'exhaustive enumeration of the single-message domain plus property-based testing (Hypothesis, seeded) '
-    'of message sequences under harness-scheduled delivery orders, against the forwarding expectation A.5',
+    'of message sequences under harness-scheduled delivery orders, against the forwarding expectation A.5; message sources include rp.Client.send_ctrl_msg on every side',
     'complete product 1 client + 0..4 pilots x originating side x channel x fwd {absent,False,True} x origin '
     '{absent, own, every other side, unknown} (+ advance / rpc_req / rpc_res defaults and rpc round trips) through '
     'the real Session._publish_cfg/_crosswire_proxy closures and real Client/AgentComponent publishers; random '
@@ -50,12 +50,12 @@ CHECKS['C16'] = (
     '(forwarded_copy:flag_*) rather than failed',
     'DESIGN.md 4/C16, A.5')
 CHECKS['C06'] = (
-    'property-based testing (Hypothesis, seeded) of notification-batch histories against a reference state model, plus exhaustive enumeration of all (current, target) state pairs',
+    'property-based testing (Hypothesis, seeded) of notification-batch histories against a reference state model (with Task.wait calls between notifications), plus exhaustive enumeration of all (current, target) state pairs',
     'random search over batches of task state notifications (duplicates, reordering, skips, contradictory finals, late non-finals, unknown uids; 1-6 tasks, up to 30 entries per batch) through the real pubsub -> _state_sub_cb -> _update_tasks -> Task._update -> callback path, compared after every batch with a model of the documented linear state model; all 18x18 state pairs enumerated completely against the helper docstring and end-to-end with bystander tasks; no counterexample in the explored domain, coverage measured; not a proof',
     TB + '; not reached: Task._update(reconnect=True), bulk callbacks, interleavings of _pilot_state_cb with _update_tasks',
     'DESIGN.md 4/C06, A.1')
 CHECKS['C15'] = (
-    'property-based testing (Hypothesis, seeded) of the four wait calls under a virtual clock against a deadline oracle; wait vs blocking user callback and submit_pilots vs first notifications under the deterministic scheduler',
+    'property-based testing (Hypothesis, seeded) of the four wait calls under a virtual clock against a deadline oracle; wait vs blocking user callback, submit_pilots vs first notifications and wait calls next to a kill request in flight under the deterministic scheduler',
     'random search over requested state sets (none/[]/one/several) x scripted entity trajectories (incl. other final '
     'state, never ending, already final) x awaited sets x timeouts through the real Task.wait, Pilot.wait, '
     'TaskManager.wait_tasks, PilotManager.wait_pilots; return time bounded below by "every awaited entity reached a '
@@ -70,7 +70,7 @@ EXEC_TB = ('trusted base: executor assembly (mt.Thread recorded and run under th
            'thread switches only at yield points; in-memory transport; get_version shim')
 CHECKS['C07'] = (
     'property-based testing (Hypothesis, seeded) of executor schedules under a deterministic cooperative scheduler + '
-    'systematic enumeration (one-task interleavings, preemption sweep of every activity pair, two-task sweeps, start-up reports, launch bursts) against an exactly-once '
+    'systematic enumeration (one-task interleavings, preemption sweep of every activity pair, two-task sweeps, start-up reports, limits after a start-up report, launch bursts) against an exactly-once '
     'oracle over the transport event log',
     'random and systematic search over interleavings of intake, the real watcher loop, the real timeout watcher and '
     'cancel handlers x launch fault points x exit codes x timeouts through the real Popen (and NOOP) executor; per '
@@ -107,7 +107,7 @@ CHECKS['C14'] = (
     'DESIGN.md 4/C14, A.1')
 CHECKS['C17'] = (
     'exhaustive enumeration of all shipped (resource, schema) pairs plus property-based testing (Hypothesis, seeded) '
-    'of pilot sizes against the integer sizing model A.6',
+    'of pilot sizes against the integer sizing model A.6; the real PSI/J pilot launcher asked for every endpoint naming a batch system',
     'every label of every configs/resource_*.json x each of its schemas (63 configs, 120 pairs) resolved through the '
     'real Session.get_resource_config and the four real factories run up to instantiation (resource manager, every '
     'launch method incl. order entries, agent scheduler, executor) and the agent config loader; every pair x a fixed '
@@ -139,7 +139,7 @@ CHECKS['C20'] = (
     'property-based testing (Hypothesis, seeded): payload-DSL differential oracle on the real raptor dispatchers '
     '(result tuple, os.environ, process environment, streams); model-based request/completion histories through the '
     'real DefaultWorker over fake multiprocessing with an occupancy/exactly-one-result oracle; routing and '
-    'result-accounting histories through the real Master and the agent scheduler\'s raptor forwarding',
+    'result-accounting histories through the real Master and the agent scheduler\'s raptor forwarding; request streams through the real MPI worker rank loop, allotment and result collection with stand-in communicators',
     'random search over payload programs x task modes x request sequences; over worker sizes x demands x outcomes '
     '(ok/raise/timeout/late completion/spawn failure/process death) x completion orders x wait-point schedules; over '
     'request streams of every mode x exit codes x delivery orders x queue (un)registration orders; no counterexample '
@@ -149,7 +149,7 @@ CHECKS['C20'] = (
     'DESIGN.md 4/C20')
 CHECKS['C08'] = (
     'property-based testing (Hypothesis, seeded): cancel-heavy histories through the scheduler-pair and executor engines, '
-    'DIFFERENTIAL run of each executor schedule with and without its cancel requests, generic-intake and request-message parts',
+    'DIFFERENTIAL run of each executor schedule with and without its cancel requests, generic-intake and request-message parts; model-based histories of the raptor backlog (submit / cancel / register) through the real scheduler intake and control handler',
     'random search over the point of a task\'s life at which a cancel arrives (in the scheduler queue, waiting, placed, in the '
     'executor queue, before spawn, running, after exit) x bystander sets: named tasks leave the wait pool / are killed / are '
     'released exactly once / end CANCELED unless finished, and are not processed by a later component; bystanders keep their '
@@ -159,7 +159,7 @@ CHECKS['C08'] = (
 CHECKS['C11'] = (
     'property-based testing (Hypothesis, seeded): generated staging-directive bulks driven through the four real '
     'staging components on a fresh directory tree, file-tree oracle against the documented sandbox hierarchy; '
-    'short-form strings through expand_staging_directives against a split model',
+    'short-form strings through expand_staging_directives against a split model; a quarter of the cases keeps absolute paths on another file system',
     'random search over actions x forms (dict, "src", > >> < <<) x location schemas x files/directories x missing '
     'sources x task outcome x stage_on_error, 1-3 tasks per bulk; no counterexample in the explored domain, '
     'coverage measured; not a proof',
@@ -181,7 +181,7 @@ CHECKS['C18'] = (
     'DESIGN.md 4/C18')
 CHECKS['C05'] = (
     'property-based testing (Hypothesis, seeded) with fault injection: generated workloads x fault plans x stage polling '
-    'orders through the composed client/agent pipeline, truthfulness oracle on the real Task objects and callbacks',
+    'orders through the composed client/agent pipeline, truthfulness oracle on the real Task objects and callbacks; generated Flux job-event streams through the real Flux executor event handler',
     'random search over workloads, placements of one fault per task (client/agent staging errors, no launcher, launch '
     'errors, non-zero exit, exception inside a per-task handler of six components, output staging errors), cancel requests '
     'and the order in which pipeline stages run; every task ends in exactly one final state that matches exit code / fault / '
